@@ -210,6 +210,22 @@ def datasets(extra=None):
     out.append(np.array([[.1, .2], [.2, .1], [.5, .6], [.9, .95], [.7, .3]]))
     out.append(np.array([[.1, .9], [.4, .5], [.8, .2], [.6, .55]]))
     out.append(np.array([[.1, .1], [.2, .4], [.3, .3], [.4, .2]]))     # tau exactly 0
+    # rank tables whose Kendall tau is exactly 0 (permutations of 0..5 / 0..6), and tables with repeated rows
+    import itertools
+    from scipy import stats
+    for n in (6, 7, 8, 9, 12, 13, 16, 20):
+        cnt = 0
+        prs = np.random.RandomState(n)
+        for _ in range(6000):
+            perm = prs.permutation(n)
+            if stats.kendalltau(np.arange(n), perm)[0] == 0:
+                out.append(np.column_stack(((np.arange(n) + 0.5) / n, (perm + 0.5) / n)))
+                cnt += 1
+                if cnt >= 25:
+                    break
+    base = out[1 if extra else 0]
+    out.append(base[rs.randint(0, len(base), size=len(base))])       # bootstrap resample: repeated rows
+    out.append(np.repeat(np.array([[.2, .3], [.5, .4], [.8, .9], [.6, .1]]), [3, 1, 2, 1], axis=0))
     return out
 
 
